@@ -46,7 +46,8 @@ def eval_part(part, binary, inputs, work, tag):
     if not inputs:
         return dict(obs=[], corr=[], oracle=[], known=[], branches=[], terms=0)
     runner = C.run_harness_parallel if part.parallel else C.run_harness
-    obs = runner(binary, part.family, [i["input"] for i in inputs], args=part.harness_args)
+    obs = runner(binary, part.family, [i["input"] for i in inputs], args=part.harness_args,
+                 crash_obs=getattr(part, "crash_obs", None))
     terms, owner = [], []
     for idx, (i, o) in enumerate(zip(inputs, obs)):
         ts = part.to_coq(i["input"], o)
